@@ -1,7 +1,7 @@
 """C13 - never more live connection tokens than max_conns; freed slots wake waiters."""
 from fvgen import case, parse_case, parse_out
 
-RULE = ("tok_run: limits 1..4, random histories (length 4..60) of get_token on the runner or a clone, poll, drop-token, drop-pending-request, hand-token-to-Token::run-on-an-idle-connection, hand-token-to-Token::run-on-a-connection-whose-request-is-in-flight-with-its-epilogue-stuck, Runner::shutdown of a clone whose connections are idle (their slots must return to the shared limit), "
+RULE = ("tok_run: limits 1..4, random histories (length 4..60) of get_token on the runner or a clone, poll, drop-token, drop-pending-request, hand-token-to-Token::run-on-an-idle-connection, hand-token-to-Token::run-on-a-connection-whose-request-is-in-flight-with-its-epilogue-stuck, the-client-of-such-a-connection-drains-its-socket, Runner::shutdown of a clone whose connections are idle (their slots must return to the shared limit), "
         "single-threaded at the granularity of those operations, one counting waker per request; directed histories: k releases in a row with "
         ">= k waiters queued, cancellation of a notified waiter, barging by a fresh request. Oracle: live tokens <= limit at every step, a first "
         "poll with a free slot is Ready, and whenever a slot is free while registered requests are pending at least one pending request has been "
@@ -32,6 +32,8 @@ def gen_ops(rng, maxc, n):
             # hand the token (if request i has one) to Token::run: on an idle connection (5), or on a connection with a request in
             # flight whose epilogue cannot be written (8 without / 9 with KeepConn): it stays in use
             ops += [rng.choice([5, 5, 8, 9]), rng.choice(list(state))]
+            if rng.random() < 0.3:
+                ops += [10, rng.choice(list(state))]     # the client of a stalled connection drains its socket
         elif r < 0.94:
             # shut down a clone (only effective when no unfinished request of it is outstanding)
             ops += [7, rng.choice([1, 1, 2])]
@@ -93,6 +95,19 @@ def gen_cases(rng, tier):
                 ops += [1, rng.choice([0, 1]), 2, i, op if i == 0 else rng.choice([8, 9]), i]
             ops += [1, rng.choice([0, 1, 2]), 2, maxc, 2, maxc, 3, 0, 2, maxc]
             yield case("tok_run", [maxc], ops), ["tokens", "directed", "in-flight", "waited"]
+    # directed: the client of a stalled connection drains its socket: the request is completed; without KeepConn the connection ends and
+    # its slot is free for a waiter, with KeepConn it stays (idle) until it is dropped or its runner is shut down
+    for maxc in (1, 2, 3):
+        for op in (8, 9):
+            for cl in (0, 1):
+                ops = []
+                for i in range(maxc):
+                    ops += [1, cl, 2, i, op if i == 0 else rng.choice([8, 9]), i]
+                ops += [1, rng.choice([0, 1, 2]), 2, maxc, 2, maxc, 10, 0, 2, maxc]
+                if cl == 1:
+                    ops += [7, 1] + sum(([10, i] for i in range(1, maxc)), []) + [2, maxc]
+                ops += [3, 0, 2, maxc]
+                yield case("tok_run", [maxc], ops), ["tokens", "directed", "unstall", "waited"]
     # the configured limit is the limit: exactly max_conns requests complete at once, the next one waits — small limits and limits
     # around 2^16 (async servers are told to configure "a much higher number")
     for m in [1, 2, 3, 7, 64, 255, 256, 257, 1000, 65535, 65536, 65537, 70000] + ([2 ** 17 + 1] if not quick else []):
@@ -108,7 +123,7 @@ def nontrivial(line, tags):
 
 
 def min_classes(tier):
-    return {"directed": 30, "cancel": 16, "random": 1000, "served": 4, "fill": 13, "shutdown": 12, "in-flight": 6}
+    return {"directed": 30, "cancel": 16, "random": 1000, "served": 4, "fill": 13, "shutdown": 12, "in-flight": 6, "unstall": 12}
 
 
 def oracle(line, impl_line):
@@ -129,6 +144,7 @@ def oracle(line, impl_line):
     wakes_at_reg = {}
     nf = 0
     own, served, stalled, dead, nclones = {}, set(), set(), set(), 1
+    keepc = set()
     for k in range(0, len(ops) - 1, 2):
         op, x = ops[k], ops[k + 1]
         row = o[k // 2]
@@ -157,7 +173,16 @@ def oracle(line, impl_line):
             if own[x] in dead:
                 state[x] = "dropped"
             else:
+                if op == 9:
+                    keepc.add(x)
                 stalled.add(x)          # a request in flight: in use until the task is dropped, also across a shutdown
+        elif op == 10 and x in stalled:
+            # the epilogue goes out: the request is completed; the connection ends unless it had KeepConn and its runner still runs
+            stalled.discard(x)
+            if x in keepc and own[x] not in dead:
+                served.add(x)
+            else:
+                state[x] = "dropped"
         elif op == 5 and state.get(x) == "live" and x not in served and x not in stalled:
             if own[x] in dead:
                 state[x] = "dropped"      # a connection of a runner that was shut down ends at once
